@@ -1,6 +1,6 @@
 (* C08 — property theorems (statements only; proofs live in Proofs*.v).  See notes/C08.md for the status of each. *)
 From Coq Require Import List ZArith QArith Qabs Bool.
-Require Import QV.C08.Model QV.C08.Spec QV.C08.Wf QV.C08.Proofs QV.C08.ProofsVec QV.C08.ProofsRev QV.C08.ProofsConst QV.C08.ProofsTotal QV.C08.ProofsProper QV.C08.ProofsCtor QV.C08.Hist QV.C08.ProofsHist QV.C08.ProofsTrafo QV.C08.ProofsConstT QV.C08.ProofsTotalT QV.C08.ProofsTable QV.C08.ProofsPar QV.C08.ProofsOp QV.C08.ProofsFlat QV.C08.ProofsDen QV.C08.ProofsSimple QV.C08.ProofsHistT QV.C08.Lin QV.C08.ProofsLin QV.C08.ProofsLinDen QV.C08.ProofsDedup QV.C08.ProofsLinHist QV.C08.ProofsR2 QV.C08.ProofsMirror.
+Require Import QV.C08.Model QV.C08.Spec QV.C08.Wf QV.C08.Proofs QV.C08.ProofsVec QV.C08.ProofsRev QV.C08.ProofsConst QV.C08.ProofsTotal QV.C08.ProofsProper QV.C08.ProofsCtor QV.C08.Hist QV.C08.ProofsHist QV.C08.ProofsTrafo QV.C08.ProofsConstT QV.C08.ProofsTotalT QV.C08.ProofsTable QV.C08.ProofsPar QV.C08.ProofsOp QV.C08.ProofsFlat QV.C08.ProofsDen QV.C08.ProofsSimple QV.C08.ProofsHistT QV.C08.Lin QV.C08.ProofsLin QV.C08.ProofsLinDen QV.C08.ProofsDedup QV.C08.ProofsLinHist QV.C08.ProofsR2 QV.C08.ProofsMirror QV.C08.ProofsOkb QV.C08.ProofsSubset.
 Import ListNotations.
 Open Scope Q_scope.
 
@@ -387,3 +387,43 @@ Theorem C08_mirror_law : forall w, okb w = true -> no_trans w = true -> forall c
   oQeq (den (WRev w) c t) (sample w c (duration w - t)).
 Proof. exact mirror_law_den. Qed.
 Print Assumptions C08_mirror_law.
+
+(* ---- the optimising constructors return WELL-FORMED waveforms with the channels and the duration of the plain
+   composite ([canonb]: SubsetWaveform channel lists are duplicate free, as frozensets are) ---- *)
+Theorem C08_from_mapping_wellformed : forall dur d w', from_mapping dur d = OK w' -> NoDup (keys d) -> 0 < dur ->
+  okb w' = true /\ canonb w' = true /\ (forall c, inb c (channels w') = inb c (keys d)) /\ duration w' == dur.
+Proof. exact from_mapping_okb. Qed.
+Print Assumptions C08_from_mapping_wellformed.
+Theorem C08_from_sequence_wellformed : forall l w', okb (WSeq l) = true -> Forall (fun x => canonb x = true) l ->
+  from_sequence l = OK w' ->
+  good w' /\ (forall c, inb c (channels w') = inb c (channels (WSeq l))) /\ duration w' == sumd l.
+Proof. exact from_sequence_okb. Qed.
+Print Assumptions C08_from_sequence_wellformed.
+Theorem C08_from_repetition_count_wellformed : forall b n w', good b -> (1 <= n)%Z -> from_repetition_count b n = OK w' ->
+  good w' /\ (forall c, inb c (channels w') = inb c (channels b)) /\ duration w' == duration b * inject_Z n.
+Proof. exact from_repetition_count_okb. Qed.
+Print Assumptions C08_from_repetition_count_wellformed.
+Theorem C08_from_functor_wellformed : forall i f w', good i -> set_eqb (keys f) (channels i) = true -> from_functor i f = OK w' ->
+  good w' /\ (forall c, inb c (channels w') = inb c (channels i)) /\ duration w' == duration i.
+Proof. exact from_functor_okb. Qed.
+Print Assumptions C08_from_functor_wellformed.
+Theorem C08_multi_wellformed : forall L w', mk_multi L = OK w' -> Forall good L ->
+  (forall x y, In x L -> In y L -> duration x == duration y) ->
+  good w' /\ (forall c, inb c (channels w') = existsb (has c) L) /\ (forall x, In x L -> duration w' == duration x) /\
+  exists S, w' = WMulti S /\ Permutation.Permutation S L /\ overlap_free S [] = true.
+Proof. exact mk_multi_okb. Qed.
+Print Assumptions C08_multi_wellformed.
+
+(* ---- get_subset_for_channels, ALL classes and nestings (closes C08_subset_partial): the restricted waveform is well
+   formed, has exactly the requested channels, the duration of the original, and samples like it on [0, duration) at
+   every time the executable guard [tg] admits (no ReversedWaveform on the path of the channel is asked at its local
+   time 0 = the class of C08_subset_refuted); without ReversedWaveform nodes: the clause in full ---- *)
+Theorem C08_subset : forall w cs w', okb w = true -> canonb w = true -> cs <> [] -> get_subset w cs = OK w' ->
+  okb w' = true /\ (forall c, inb c (channels w') = inb c cs) /\ duration w' == duration w /\
+  forall c t, inb c cs = true -> 0 <= t -> t < duration w -> tg w c t = true -> oQeq (sample w' c t) (sample w c t).
+Proof. exact get_subset_sound. Qed.
+Print Assumptions C08_subset.
+Theorem C08_subset_norev : forall w cs w', okb w = true -> canonb w = true -> norev w = true -> cs <> [] ->
+  get_subset w cs = OK w' -> forall c t, inb c cs = true -> 0 <= t -> t < duration w -> oQeq (sample w' c t) (sample w c t).
+Proof. exact get_subset_sound_norev. Qed.
+Print Assumptions C08_subset_norev.
